@@ -1,8 +1,8 @@
 INIT MCInit
-NEXT CovNext
+NEXT XNext
 CONSTANTS
-  Versions = {23}
-  QueueSizes = {2}
+  Versions = {20, 22, 23}
+  QueueSizes = {0, 2}
   TextIds = {1}
   DataIds = {1}
   CloseArgs <- MCCloseArgs
@@ -13,18 +13,9 @@ CONSTANTS
   RouteKinds = {"ok", "miss", "noresp"}
   HandlerKinds = {"default", "close", "noop", "http"}
   FirstKinds = {"connect", "disc"}
-  MaxSteps = 2
-  MaxClient = 1
+  MaxSteps = 3
+  MaxClient = 2
   Depth = 0
-INVARIANT AtMostOneAccept
-INVARIANT DataOnlyBetweenAcceptAndClose
-INVARIANT AtMostOneClose
-INVARIANT NothingAfterClose
-INVARIANT NothingAfterLost
-INVARIANT CloseAlwaysSent
-INVARIANT StateAgrees
+  FailedCloseStartsPumpInHandshake <- WrongTrue
 INVARIANT PumpOnlyWhenAccepted
-PROPERTY TableHolds
-PROPERTY InOrderHolds
 VIEW MCView
-PROPERTY MCOneAtATime
